@@ -233,7 +233,7 @@ def main(chk):
     mir = mirsym.dump_mir()
     native.build(); native.build('release')
     q = chk.tier == 'quick'
-    to = 90 if q else 900
+    to = 90 if q else 300
     jobs = []
     for name in ALL:
         np_ = IND[name]['np']
